@@ -241,8 +241,71 @@ def regroup(raw, out):
                 g.write(line)
 
 
+def mechanism_binding(pid, mech_path, selftest=False, chunk_events=40000):
+    """Model binding of Driver.tla: the hook events recorded during the scenarios, one segment per
+    connection, must be steps of the model (DriverTrace.tla).  A rejected segment is MODEL DRIFT: the
+    model no longer describes the mechanism.  That is reported and recorded but is not a property
+    violation (a mechanism may change while the listed properties still hold - those are judged at
+    the interface by the property's own monitor)."""
+    import mech as mechlib
+    segs = mechlib.segments(mech_path)
+    res = {"spec": "DriverTrace.tla", "connections": len(segs), "events": sum(len(x) for x in segs),
+           "accepted_connections": 0, "states": 0, "drift": []}
+    wd = vlib.workdir("mech-" + pid)
+    try:
+        todo = list(segs)
+        k = 0
+        while todo:
+            chunk, n = [], 0
+            while todo and (not chunk or n + len(todo[0]) <= chunk_events):
+                n += len(todo[0])
+                chunk.append(todo.pop(0))
+            k += 1
+            path = os.path.join(wd, "m%d.ndjson" % k)
+            mechlib.write(chunk, path)
+            furthest, states = vlib.tlc_mech(path, "%s-m%d" % (pid, k))
+            res["states"] += states
+            if furthest > n:
+                res["accepted_connections"] += len(chunk)
+                continue
+            # the segment holding the first event that is not a step of the model
+            upto = 0
+            for i, seg in enumerate(chunk):
+                if furthest <= upto + len(seg):
+                    ev = seg[furthest - upto - 1]
+                    res["accepted_connections"] += i
+                    res["drift"].append({"connection": seg[0].get("c"), "event_index": furthest - upto, "event": ev,
+                                         "before": seg[max(0, furthest - upto - 6):furthest - upto - 1]})
+                    log("MODEL-DRIFT check=%s Driver.tla does not allow event %d of connection %s: %s"
+                        % (pid, furthest - upto, seg[0].get("c"), json.dumps(ev)))
+                    todo = chunk[i + 1:] + todo
+                    break
+                upto += len(seg)
+        if selftest and segs:
+            # binding self-test: a task that ends twice / a queue seen closed before the result is set
+            bad = None
+            for seg in segs:
+                idx = [i for i, e in enumerate(seg) if e["ev"] == "t_end"]
+                if idx:
+                    bad = seg[:idx[0] + 1] + [seg[idx[0]]] + seg[idx[0] + 1:]
+                    break
+            if bad:
+                path = os.path.join(wd, "self.ndjson")
+                mechlib.write([bad], path)
+                furthest, _ = vlib.tlc_mech(path, "%s-mself" % pid)
+                if furthest > len(bad):
+                    raise vlib.ToolError("mechanism binding self-test failed: a corrupted segment was accepted")
+                res["selftest_rejected_at"] = furthest
+        log("[mech] %s: %d connections, %d events, %d accepted, %d drifting"
+            % (pid, res["connections"], res["events"], res["accepted_connections"], len(res["drift"])))
+        res["drift"] = res["drift"][:10]
+        return res
+    finally:
+        vlib.cleanup(wd)
+
+
 def e2e_check(pid, tier, scenarios, trace_spec, corrupt, note, mc_cfgs=(), threads=2,
-              case_of=None, extra_cov=None, runs=1, par=1, mc_results=(), defer=False):
+              case_of=None, extra_cov=None, runs=1, par=1, mc_results=(), defer=False, mech=False):
     """End-to-end procedure: model-check the property's model, run the scenarios against
     the real endpoints, validate every scenario history with the property's trace spec."""
     import scen  # noqa: F401
@@ -313,6 +376,15 @@ def e2e_check(pid, tier, scenarios, trace_spec, corrupt, note, mc_cfgs=(), threa
                 cov["samples"] = [vlib._shorten(scenarios[0], 12)] + vlib.sample_lines(trace, 3)
                 n = e2e_selftest(trace, pid, trace_spec, corrupt)
                 cov["binding_selftest_scenarios_rejected"] = n
+            if mech and os.path.exists(raw + ".mech"):
+                m = mechanism_binding(pid, raw + ".mech", selftest=(run == 0))
+                prev = cov.get("mechanism_trace")
+                if prev:
+                    for k in ("connections", "events", "accepted_connections", "states"):
+                        m[k] += prev[k]
+                    m["drift"] = prev["drift"] + m["drift"]
+                cov["mechanism_trace"] = m
+                cov["states"] += m["states"]
         if extra_cov:
             cov.update(extra_cov)
         if defer:
@@ -728,7 +800,7 @@ def c08(tier):
          "model-checked for ExactlyOnce / PermitsSane",
          "streams reset by their sender before being accepted are not used (a reset may legitimately discard the preamble)"],
         mc_cfgs=[("DriverMC.tla", "Driver_safety_quick.cfg" if tier == "quick" else "Driver_safety.cfg")],
-        par=4, threads=4, runs=2 if tier == "thorough" else 1)
+        par=4, threads=4, runs=2 if tier == "thorough" else 1, mech=True)
 
 
 PROPS["C08"] = c08
@@ -780,7 +852,7 @@ def c07(tier):
          "clean close must get through (5 s bound); both roles; Driver.tla checked for the liveness property below the queue capacities "
          "and shown to fail at them (known findings D7)",
          "a stream on which no byte at all was written does not exist for the receiver (QUIC sends nothing): the 'no byte' position is covered by '1 byte'"],
-        mc_results=mc, par=6, threads=4, case_of=_case_c07)
+        mc_results=mc, par=6, threads=4, case_of=_case_c07, mech=True)
 
 
 PROPS["C07"] = c07
@@ -821,7 +893,7 @@ def c09(tier):
          "from the cause's allowed set; the raw peer must see the close; Driver.tla model-checked: the shared result is set before any queue "
          "closes (Driver::result cannot panic), the cause is never misattributed, termination completes",
          "a pending connection-level call holds a handle, so 'all handles dropped' is exercised without pending calls"],
-        mc_cfgs=cfgs, par=6, threads=4)
+        mc_cfgs=cfgs, par=6, threads=4, mech=True)
 
 
 PROPS["C09"] = c09
